@@ -60,18 +60,53 @@ Qed.
 Lemma split_last {A} (l : list A) : l <> [] -> exists es x, l = es ++ [x].
 Proof. intros H. destruct (exists_last H) as (es & x & E). eauto. Qed.
 
+(** values a height outside the scanned range can take after scan_complete *)
+Definition elsewhere (orig v : option prio) : Prop :=
+  v = orig \/ v = Some FoundNote \/ (orig = None /\ v = Some Historic).
+
+Lemma ins_found_elsewhere st s e orig h :
+  elsewhere orig (pm st h) -> elsewhere orig (pm (ins_spec st s e FoundNote false) h).
+Proof.
+  unfold elsewhere. intros H. cbn [ins_spec pm]. destruct (in_range s e h).
+  - destruct (pm st h) as [c|] eqn:E.
+    + destruct (dom_cases c FoundNote false) as [D|D]; rewrite D; [|auto]. exact H.
+    + auto.
+  - destruct (pm st h) as [c|] eqn:E; [exact H|]. destruct (in_range _ _ h).
+    + destruct H as [H|[H|(H1 & H2)]]; try discriminate. right. right. split; [congruence|reflexivity].
+    + exact H.
+Qed.
+
+Lemma fold_found_elsewhere ops : forall st orig h,
+  (forall o, In o ops -> snd o = false /\ snd (fst o) = FoundNote) ->
+  elsewhere orig (pm st h) -> elsewhere orig (pm (fold_spec st ops) h).
+Proof.
+  induction ops as [|[[[s e] p] f] ops IH]; intros st orig h H E; [exact E|]. cbn [fold_spec].
+  destruct (H _ (or_introl eq_refl)) as (F & P). cbn [fst snd] in F, P. subst f p.
+  apply IH; [intros; apply H; right; assumption|]. apply ins_found_elsewhere. exact E.
+Qed.
+
+Lemma ins_scanned_elsewhere st s e f h : in_range s e h = false ->
+  elsewhere (pm st h) (pm (ins_spec st s e Scanned f) h).
+Proof.
+  intros O. unfold elsewhere. cbn [ins_spec pm]. rewrite O. destruct (pm st h); [auto|].
+  destruct (in_range (Z.min (lo st) s) (Z.max (hi st) e) h); [right; right; auto|left; reflexivity].
+Qed.
+
 (** *** scan_complete *)
 Lemma scan_complete_spec c q s e sap orc iro :
   chain q -> s < e -> touches q s e ->
   exists q', scan_complete c q s e sap orc iro = Ok q' /\ chain q' /\
-    forall h, scanned_at q' h <-> (s <= h < e \/ scanned_at q h).
+    (forall h, scanned_at q' h <-> (s <= h < e \/ scanned_at q h)) /\
+    (forall h, rows_at (map row_of q) h <> None -> rows_at (map row_of q') h <> None) /\
+    (forall h, rows_at (map row_of q') h = Some Ignored -> rows_at (map row_of q) h = Some Ignored) /\
+    (forall h, ~ (s <= h < e) -> elsewhere (rows_at (map row_of q) h) (rows_at (map row_of q') h)).
 Proof.
   intros C L T. unfold scan_complete.
-  set (ext1 := extend_range s e (map subtree_index sap) (sapling_shards c) (sapling_act c) (birthday c)).
+  set (ext1 := extend_range s e (map (subtree_index SAPLING_SHARD_HEIGHT) sap) (sapling_shards c) (sapling_act c) (birthday c)).
   set (r1 := match ext1 with Some r => r | None => (s, e) end).
-  set (ext2 := or_else (extend_range (fst r1) (snd r1) (map subtree_index orc) (orchard_shards c) (nu5_act c) (birthday c)) ext1).
+  set (ext2 := or_else (extend_range (fst r1) (snd r1) (map (subtree_index ORCHARD_SHARD_HEIGHT) orc) (orchard_shards c) (nu5_act c) (birthday c)) ext1).
   set (r2 := match ext2 with Some r => r | None => (s, e) end).
-  set (ext3 := or_else (extend_range (fst r2) (snd r2) (map subtree_index iro) (ironwood_shards c) (nu6_3_act c) (birthday c)) ext2).
+  set (ext3 := or_else (extend_range (fst r2) (snd r2) (map (subtree_index IRONWOOD_SHARD_HEIGHT) iro) (ironwood_shards c) (nu6_3_act c) (birthday c)) ext2).
   assert (W1 : fst r1 <= s /\ e <= snd r1).
   { unfold r1. destruct ext1 as [[a b]|] eqn:E; [apply extend_range_widens in E; exact E|cbn; lia]. }
   assert (W2 : fst r2 <= s /\ e <= snd r2).
@@ -125,9 +160,23 @@ Proof.
     split; [reflexivity|split; congruence]. }
   rewrite Eel in NE, WI |- *. apply Forall_app in NE. destruct NE as (NEs & NEl).
   assert (Vl : valid l) by (inversion NEl; subst; unfold valid, nonempty in *; lia).
-  destruct (replace_touching q (fst query) (snd query) es l false C) as (q' & -> & Cq' & _ & P & P2); try assumption; try lia.
+  destruct (replace_touching_facts q (fst query) (snd query) es l false C) as (q' & -> & Cq' & _ & P & P2 & PC & _ & PI); try assumption; try lia.
   { destruct T as (r & I & R1 & R2). exists r. split; [exact I|]. lia. }
   exists q'. split; [reflexivity|]. split; [exact Cq'|].
+  split; [|split; [exact PC|split]].
+  3:{ intros h Nh. cbv zeta in P, P2. unfold replace_state in P, P2. rewrite <- Eel in P, P2. rewrite P.
+      destruct (in_range (lo _) (hi _) h) eqn:Hin; [|left; reflexivity].
+      rewrite (P2 h Hin). unfold entries, entry_ops. cbn [map fold_spec op_row fst snd row_of rs re rp].
+      apply fold_found_elsewhere.
+      - intros o Io. apply in_map_iff in Io. destruct Io as (r & <- & Ir). cbn [op_row fst snd row_of]. split; [reflexivity|].
+        apply in_app_or in Ir.
+        destruct Ir as [Ir|Ir]; [unfold before in Ir|unfold after in Ir]; destruct ext3 as [[xs xe]|];
+          try (destruct (xs <? s)); try (destruct (e <? xe)); cbn [In] in Ir; intuition (subst; reflexivity).
+      - apply (ins_scanned_elsewhere (seg_state _) s e false h). unfold in_range. lia. }
+  2:{ apply PI. intros e0 Ie. rewrite <- Eel in Ie. unfold entries in Ie. destruct Ie as [<-|Ie]; [discriminate|].
+      assert (rp e0 = FoundNote); [|congruence]. apply in_app_or in Ie.
+      destruct Ie as [Ie|Ie]; [unfold before in Ie|unfold after in Ie]; destruct ext3 as [[xs xe]|];
+        try (destruct (xs <? s)); try (destruct (e <? xe)); cbn [In] in Ie; intuition (subst; reflexivity). }
   cbv zeta in P, P2. unfold replace_state in P, P2. rewrite <- Eel in P, P2.
   set (S := fold_spec (seg_state (filter (selp (fst query) (snd query)) q)) (entry_ops false entries)) in *.
   assert (SC : forall h, pm S h = Some Scanned <->
@@ -149,10 +198,10 @@ Qed.
 (** *** update_chain_tip *)
 Definition is_u32 (x : Z) : Prop := 0 <= x <= u32_max.
 Definition ctx_ok (c : ctx) (new_tip : Z) : Prop :=
-  is_u32 new_tip /\
+  (0 <= new_tip < u32_max) /\
   (forall a, sapling_act c = Some a -> is_u32 a) /\
   (forall m, max_scanned c = Some m -> is_u32 m) /\
-  (forall b, birthday c = Some b -> is_u32 b /\ b <> hadd new_tip 1).
+  (forall b, birthday c = Some b -> is_u32 b).
 
 (** the plan never panics; what it inserts: optional non-empty ChainTip range, then one valid
     range that is Ignored/Historic/ChainTip, or Verify starting above the max scanned height *)
@@ -164,7 +213,8 @@ Lemma tip_plan_spec c t : ctx_ok c t ->
         qs <= qe /\
         exists es l, entries = es ++ [l] /\ Forall nonempty es /\ valid l /\ Forall (within qs qe) entries /\
           Forall (fun r => rp r = ChainTip) es /\
-          (rp l <> Scanned) /\ (rp l = Verify -> exists ms, max_scanned c = Some ms /\ ms < rs l)
+          (rp l <> Scanned) /\ (rp l = Verify -> exists ms, max_scanned c = Some ms /\ ms < rs l) /\
+          (rp l = Ignored -> birthday c = None)
     end.
 Proof.
   intros (Ut & Ua & Um & Ub). unfold tip_plan, is_u32, u32_max in *.
@@ -174,8 +224,8 @@ Proof.
   - specialize (Um ms eq_refl). destruct (Z.ltb_spec t ms); [exists None; auto|].
     set (chain_end := hadd t 1). assert (CE : chain_end = Z.min (t + 1) 4294967295) by reflexivity.
     destruct (birthday c) as [b|] eqn:Eb.
-    + destruct (Ub b eq_refl) as (Ub1 & Ub2). fold chain_end in Ub2.
-      destruct (Z.ltb_spec chain_end b); [exists None; auto|].
+    + pose proof (Ub b eq_refl) as Ub1.
+      destruct (Z.ltb_spec t b); [exists None; auto|].
       destruct (omin_list _) as [h|].
       * destruct (Z.ltb_spec h chain_end).
         -- unfold from_parts. rewrite !Z.geb_leb, Z.gtb_ltb. unfold hadd, hsub, u32_max, PRUNING_DEPTH, VERIFY_LOOKAHEAD in *.
@@ -216,8 +266,8 @@ Proof.
           unfold valid, within; cbn [rs re rp]; try lia; try congruence; try reflexivity; try discriminate.
   - set (chain_end := hadd t 1). assert (CE : chain_end = Z.min (t + 1) 4294967295) by reflexivity.
     destruct (birthday c) as [b|] eqn:Eb.
-    + destruct (Ub b eq_refl) as (Ub1 & Ub2). fold chain_end in Ub2.
-      destruct (Z.ltb_spec chain_end b); [exists None; auto|].
+    + pose proof (Ub b eq_refl) as Ub1.
+      destruct (Z.ltb_spec t b); [exists None; auto|].
       destruct (omin_list _) as [h|].
       * destruct (Z.ltb_spec h chain_end).
         -- unfold from_parts. rewrite !Z.geb_leb, Z.gtb_ltb.
@@ -267,13 +317,23 @@ Lemma update_chain_tip_spec c q t qs qe entries :
   chain q -> ctx_ok c t -> tip_plan c t = Ok (Some (qs, qe, entries)) -> touches q qs qe ->
   exists q', update_chain_tip c q t = Ok q' /\ chain q' /\
     (forall h, scanned_at q' h -> scanned_at q h) /\
-    (forall h, scanned_at q h -> (forall ms, max_scanned c = Some ms -> h <= ms) -> scanned_at q' h).
+    (forall h, scanned_at q h -> (forall ms, max_scanned c = Some ms -> h <= ms) -> scanned_at q' h) /\
+    (forall h, rows_at (map row_of q) h <> None -> rows_at (map row_of q') h <> None) /\
+    (forall e h, In e entries -> in_range (rs e) (re e) h = true -> rows_at (map row_of q') h <> None) /\
+    (birthday c <> None -> forall h, rows_at (map row_of q') h = Some Ignored -> rows_at (map row_of q) h = Some Ignored).
 Proof.
   intros C K E T. destruct (tip_plan_spec c t K) as (p & E' & Sp). rewrite E in E'. injection E' as <-.
-  destruct Sp as (L & es & l & -> & Nes & Vl & W & Pes & Pl1 & Pl2).
+  destruct Sp as (L & es & l & -> & Nes & Vl & W & Pes & Pl1 & Pl2 & Pl3).
   unfold update_chain_tip. rewrite E. cbn [bind].
-  destruct (replace_touching q qs qe es l false C L T Nes Vl W) as (q' & -> & Cq' & _ & P & P2).
+  destruct (replace_touching_facts q qs qe es l false C L T Nes Vl W) as (q' & -> & Cq' & _ & P & P2 & PC & PE & PI).
   exists q'. split; [reflexivity|]. split; [exact Cq'|]. cbv zeta in P, P2. unfold replace_state in P, P2.
+  assert (EXTRA : (forall h, rows_at (map row_of q) h <> None -> rows_at (map row_of q') h <> None) /\
+    (forall e h, In e (es ++ [l]) -> in_range (rs e) (re e) h = true -> rows_at (map row_of q') h <> None) /\
+    (birthday c <> None -> forall h, rows_at (map row_of q') h = Some Ignored -> rows_at (map row_of q) h = Some Ignored)).
+  { split; [exact PC|]. split; [exact PE|]. intros NB. apply PI. intros e Ie. apply in_app_or in Ie. destruct Ie as [Ie|[<-|[]]].
+    - rewrite Forall_forall in Pes. rewrite (Pes e Ie). discriminate.
+    - intros Ei. apply NB. apply Pl3. exact Ei. }
+  rewrite <- and_assoc. split; [|exact EXTRA]. clear EXTRA PC PE PI.
   set (sel := filter (selp qs qe) q) in *.
   set (S := fold_spec (seg_state sel) (entry_ops false (es ++ [l]))) in *.
   assert (S1 : forall h, pm (fold_spec (seg_state sel) (entry_ops false es)) h = Some Scanned <-> rows_at (map row_of sel) h = Some Scanned).
